@@ -191,6 +191,19 @@ check(
     "DESIGN.md §4 C20",
 )
 
+check(
+    "C18", "fault_enumeration",
+    "Fault enumeration: a BaseException injected (sys.settrace) at the k-th executed line of library / generated code "
+    "during first-use build, rebuild after register and cache-miss resolution with a call_next chain - every k in the "
+    "thorough tier (about 26 000 points over 8 generated method sets x 2 entry points), Hypothesis-sampled k plus a "
+    "strided sweep in the quick tier - plus five kinds of invalid method at every registration position and user hooks "
+    "raising on their n-th invocation; afterwards every probe through both entry points must equal a fresh function "
+    "over the registered methods or be a configuration error.",
+    "Faults strike at line boundaries of Python code only (not inside C calls; no process death); one fault per run.",
+    "fault injection enumerated over executed source lines + property-based natural faults, fresh-build oracle",
+    "DESIGN.md §4 C18",
+)
+
 ALL = [f"C{i:02d}" for i in range(1, 21)]
 REASON_PENDING = "check not built yet in this revision of /verif (work in progress; see DESIGN.md §8)"
 
